@@ -1,5 +1,591 @@
 package main
 
-import "verifharness/internal/iso"
+import (
+	"encoding/json"
+	"fmt"
+	"os"
+	"path/filepath"
+	"regexp"
+	"runtime"
+	"sort"
+	"strings"
+	"sync"
+	"time"
+	"unicode/utf8"
 
-func smlWorker(w *iso.Worker) {}
+	"verifharness/internal/gen"
+	"verifharness/internal/iso"
+	"verifharness/internal/ref"
+	"verifharness/internal/rng"
+	"verifharness/internal/smltext"
+
+	"github.com/wolimst/lib-secs2-hsms-go/pkg/parser/sml"
+)
+
+// C06 — the SML parser is total and all-or-nothing.
+// Inputs run in child worker processes (address-space limit, watchdog); the
+// worker's wrapper checks every returned triple, the step counters of hook H2
+// decide "does not hang" on logical steps.
+
+type c06Case struct {
+	Family string `json:"family"`
+	Len    int    `json:"len"`
+	Text   string `json:"text,omitempty"`   // inputs up to 8 KiB verbatim (as a Go-quoted string in Quoted)
+	Quoted string `json:"quoted,omitempty"` // strconv.Quote form, safe for invalid UTF-8
+	Recipe string `json:"recipe,omitempty"`
+	Meta   string `json:"meta,omitempty"`
+}
+
+func init() { register("C06", "exploration", runC06, replayC06) }
+
+var diagRe = regexp.MustCompile(`^Ln (\d+), Col (\d+): .`)
+var digitsRe = regexp.MustCompile(`[0-9]+`)
+var quotedRe = regexp.MustCompile(`"(?:[^"\\]|\\.)*"|U\+[0-9A-Fa-f]+( '.*')?`)
+
+// diagShape reduces a diagnostic text to its shape: quoted token text,
+// character names and numbers removed (the coverage signal of the generator).
+func diagShape(text string) string {
+	s := quotedRe.ReplaceAllString(text, "Q")
+	s = digitsRe.ReplaceAllString(s, "N")
+	if len(s) > 80 {
+		s = s[:80]
+	}
+	return s
+}
+
+// lineLengths returns the number of runes of every line of the input
+// (lines are separated by LF).
+func lineLengths(s string) []int {
+	var out []int
+	n := 0
+	for len(s) > 0 {
+		r, sz := utf8.DecodeRuneInString(s)
+		s = s[sz:]
+		if r == '\n' {
+			out = append(out, n)
+			n = 0
+		} else {
+			n++
+		}
+	}
+	return append(out, n)
+}
+
+type stepStats struct {
+	inputLen             int
+	nexts, states, peeks int64
+	exceeded             bool
+	seen                 bool
+}
+
+func smlWorker(w *iso.Worker) {
+	var last stepStats
+	sml.VerifHook = func(inputLen int, nexts, states, peeks int64, exceeded bool) {
+		last = stepStats{inputLen, nexts, states, peeks, exceeded, true}
+	}
+	shapes := map[string]bool{}
+	var m0, m1 runtime.MemStats
+	for i, j := range w.Jobs {
+		w.Begin(i)
+		in := string(j.Input)
+		last = stepStats{}
+		escaped := ""
+		var budget *sml.VerifBudgetExceeded
+		var nmsg int
+		var names []string
+		var errs, warns []string
+		runtime.ReadMemStats(&m0)
+		func() {
+			defer func() {
+				if r := recover(); r != nil {
+					if b, ok := r.(sml.VerifBudgetExceeded); ok {
+						budget = &b
+					} else {
+						escaped = fmt.Sprint(r)
+					}
+				}
+			}()
+			msgs, e, wn := sml.Parse(in)
+			nmsg = len(msgs)
+			for _, m := range msgs {
+				names = append(names, m.Name())
+			}
+			errs, warns = e, wn
+		}()
+		runtime.ReadMemStats(&m1)
+		w.Classes["family/"+j.Family]++
+		report := func(sig, what string) {
+			w.Report(iso.Finding{Index: i, Sig: sig, What: what, Family: j.Family})
+		}
+		// (i) no panic escapes
+		if escaped != "" {
+			w.Classes["escaped-panic"]++
+			report("C06/panic-escaped/"+digitsRe.ReplaceAllString(clipS(escaped), "N"), "panic escaped sml.Parse: "+escaped)
+		}
+		// (iii) logical step budget
+		if budget != nil || last.exceeded {
+			what := "step budget exceeded"
+			if budget != nil {
+				what = fmt.Sprintf("%s: %d calls > budget %d for a %d-byte input", budget.What, budget.Count, budget.Budget, budget.InputLen)
+			}
+			report("C06/step-budget-exceeded", what)
+		}
+		if !last.seen {
+			w.Classes["hook-not-reached"]++
+		} else {
+			w.Classes["hook-reached"]++
+			d := float64(len(in) + 1)
+			w.Max("lexer_next_calls_per_byte", float64(last.nexts)/d)
+			w.Max("lexer_state_calls_per_byte", float64(last.states)/d)
+			w.Max("parser_peek_calls_per_byte", float64(last.peeks)/d)
+		}
+		w.Max("heap_sys_bytes", float64(m1.HeapSys))
+		w.Max("alloc_bytes_per_input_byte/"+j.Family, float64(m1.TotalAlloc-m0.TotalAlloc)/float64(len(in)+1))
+		if escaped == "" && budget == nil {
+			// (iv) all-or-nothing
+			if len(errs) > 0 && nmsg > 0 {
+				report("C06/messages-returned-with-errors", fmt.Sprintf("%d messages together with errors %q", nmsg, errs))
+			}
+			if len(errs) > 0 {
+				w.Classes["rejected"]++
+			} else {
+				w.Classes["accepted"]++
+			}
+			if len(warns) > 0 {
+				w.Classes["with-warnings"]++
+			}
+			// (v) every message, in order
+			if j.Meta != "" && len(errs) == 0 {
+				want := strings.Split(j.Meta, "\x00")
+				if strings.Join(names, "\x00") != j.Meta {
+					report("C06/messages-missing-or-out-of-order", fmt.Sprintf("no error, expected message names %q, got %q", want, names))
+				}
+				w.Classes["order-checked"]++
+			} else if j.Meta != "" {
+				report("C06/valid-sequence-rejected", fmt.Sprintf("a generated sequence of valid messages was rejected: %q", errs))
+			}
+			// (vi) diagnostics read "Ln x, Col y: text" with a position inside the input
+			var lens []int
+			for _, d := range append(append([]string{}, errs...), warns...) {
+				mm := diagRe.FindStringSubmatch(d)
+				if mm == nil {
+					report("C06/diagnostic-format", fmt.Sprintf("diagnostic %q does not read 'Ln x, Col y: text'", d))
+					break
+				}
+				if lens == nil {
+					lens = lineLengths(in)
+				}
+				var ln, col int
+				fmt.Sscan(mm[1], &ln)
+				fmt.Sscan(mm[2], &col)
+				if ln < 1 || ln > len(lens) || col < 1 || col > lens[ln-1]+1 {
+					report("C06/diagnostic-position-outside-input", fmt.Sprintf("diagnostic %q: the input has %d lines, line %d has %d characters", d, len(lens), ln, func() int {
+						if ln >= 1 && ln <= len(lens) {
+							return lens[ln-1]
+						}
+						return -1
+					}()))
+					break
+				}
+				shape := diagShape(d[len(mm[0])-1:])
+				if !shapes[shape] {
+					shapes[shape] = true
+					w.Shapes = append(w.Shapes, shape)
+					w.Keep = append(w.Keep, i)
+				}
+			}
+		}
+		w.End(i)
+	}
+}
+
+// ---- input generators
+
+// every Unicode White_Space code point, plus three look-alikes that are not white space (U+200B, U+FEFF, U+180E)
+var exoticSpaces = []string{"\u0009", "\u000a", "\u000b", "\u000c", "\u000d", "\u0020", "\u0085", "\u00a0", "\u1680", "\u2000", "\u2001", "\u2002", "\u2003", "\u2004", "\u2005", "\u2006", "\u2007", "\u2008", "\u2009", "\u200a", "\u2028", "\u2029", "\u202f", "\u205f", "\u3000", "\u200b", "\ufeff", "\u180e"}
+
+var hostileFragments = []string{
+	"\x85", "\xa0", "\xff", "\xc3", "\xe2\x82", "\xf0\x9f", "\x00", "\"", "\"abc", "[", "[1", "[1..", "[..", "]", "[[", "<", ">", "<<", ">>", ".", "..", "...", "....", "...[", "...[1", "...[99999999999999999999]",
+	"1e999999999", "1e-999999999", "-", "+", "0x", "0b", "0o", "1e", "1e+", strings.Repeat("9", 5000), "-" + strings.Repeat("9", 400), "0x" + strings.Repeat("F", 300), "0." + strings.Repeat("0", 400) + "1",
+	"S99999999999999999999F1", "S1F99999999999999999999", "S0F0", "S128F256", "S-1F1", "SF", "S1F", "S1F1W", "S1F1[W]", "W", "[W]", "[w", "H->E", "H<-", "H<->", "h<->e",
+	"[18446744073709551616]", "[9223372036854775807]", "[9223372036854775808]", "[4294967296..]", "[99999999999]", "[3000000000]", "[..99999999999]", "[99999999999..]", "[5..2]", "[ 1 .. 2 ]", "[1...2]", "[-1]", "[0x10]",
+	"//", "// comment", "//\n", "/", "/*", "*/", "#", "@", "\\", "'", "`", "é", "漢字", "😀", "\u202e", "T", "F", "t", "TRUE", "L", "A", "B", "BOOLEAN", "F4", "F8", "I1", "I8", "U1", "U8", "l", "a", "X", "x", "x[0]", "x[", "x[1][2]", "_", "_1", "1x", "x.y",
+	"\"\"", "\"a\"", "\"é\"", "\"\\\"", "\"a\nb\"", "\"\n", "0x7F", "0x80", "127", "128", "255", "256", "-1", "1.5", ".5", "5.", "1_000", "0b2", "08", "0o8", "0xG",
+}
+
+var itemTypes = []string{"L", "A", "B", "BOOLEAN", "F4", "F8", "I1", "I2", "I4", "I8", "U1", "U2", "U4", "U8"}
+var sizeDecls = []string{"", "[1]", "[0]", "[2..3]", "[..2]", "[1..]", "[99999999999]", "[3000000000]", "[4294967296..]", "[18446744073709551616]", "[9223372036854775807]", "[..99999999999]"}
+
+func soup(r *rng.R, maxTok int) string {
+	var sb strings.Builder
+	n := 1 + r.Intn(maxTok)
+	vocab := soupVocab
+	for i := 0; i < n; i++ {
+		switch r.Intn(10) {
+		case 0, 1, 2:
+			sb.WriteString(hostileFragments[r.Intn(len(hostileFragments))])
+		case 3:
+			sb.WriteString(exoticSpaces[r.Intn(len(exoticSpaces))])
+		default:
+			sb.WriteString(vocab[r.Intn(len(vocab))])
+		}
+		switch r.Intn(8) {
+		case 0:
+		case 1:
+			sb.WriteString("\n")
+		case 2:
+			sb.WriteString(exoticSpaces[r.Intn(len(exoticSpaces))])
+		default:
+			sb.WriteString(" ")
+		}
+	}
+	return sb.String()
+}
+
+func mutate(r *rng.R, s string) string {
+	b := []byte(s)
+	for k := 1 + r.Intn(3); k > 0; k-- {
+		if len(b) == 0 {
+			b = []byte(hostileFragments[r.Intn(len(hostileFragments))])
+			continue
+		}
+		i := r.Intn(len(b))
+		switch r.Intn(7) {
+		case 0: // flip
+			b[i] ^= 1 << uint(r.Intn(8))
+		case 1: // delete a span
+			j := i + r.Intn(len(b)-i+1)
+			if j-i > 20 {
+				j = i + 20
+			}
+			b = append(b[:i:i], b[j:]...)
+		case 2: // duplicate a span
+			j := i + r.Intn(len(b)-i+1)
+			if j-i > 40 {
+				j = i + 40
+			}
+			b = append(b[:j:j], append(append([]byte{}, b[i:j]...), b[j:]...)...)
+		case 3: // splice a hostile fragment
+			f := hostileFragments[r.Intn(len(hostileFragments))]
+			b = append(b[:i:i], append([]byte(f), b[i:]...)...)
+		case 4: // truncate
+			b = b[:i]
+		case 5: // exotic space
+			f := exoticSpaces[r.Intn(len(exoticSpaces))]
+			b = append(b[:i:i], append([]byte(f), b[i:]...)...)
+		case 6: // replace with random byte
+			b[i] = byte(r.Intn(256))
+		}
+	}
+	return string(b)
+}
+
+func validText(r *rng.R, tagged bool, k int) (string, string) {
+	g := gen.New(r, gen.Profile{MaxDepth: 1 + r.Intn(3), Vars: r.Bool(), Ellipsis: r.Chance(1, 4), Budget: 100, MaxKids: 3, MaxElems: 4})
+	var toks []smltext.Tok
+	var names []string
+	for q := 0; q < k; q++ {
+		var it *ref.Item
+		if !r.Chance(1, 6) {
+			it = g.Tree()
+		}
+		m := g.Msg(it, false)
+		if tagged {
+			m.Name = fmt.Sprintf("tag_%d_%d", q, r.Intn(1000))
+		}
+		names = append(names, m.Name)
+		st := &smltext.NumStyle{R: r, Variety: r.Bool()}
+		toks = append(toks, smltext.MsgToks(st, m, r.Bool())...)
+	}
+	lead, gaps, _ := smltext.Layout(r, toks, smltext.LayoutOpts{AddOptional: true, Comments: r.Chance(1, 3), FinalNoEOL: true})
+	return smltext.Render(toks, lead, gaps, smltext.CaseSpelling(r, toks)).Text, strings.Join(names, "\x00")
+}
+
+func c06Recipe(recipe string) string {
+	var kind string
+	var a int
+	fmt.Sscanf(recipe, "%s %d", &kind, &a)
+	switch kind {
+	case "nest-unclosed":
+		return "S1F1 W" + strings.Repeat("\n<L", a)
+	case "nest-closed":
+		return "S1F1 W" + strings.Repeat("\n<L", a) + strings.Repeat(">", a) + "\n."
+	}
+	return ""
+}
+
+func c06InitialJobs(c *ctx, r *rng.R) []iso.Job {
+	var jobs []iso.Job
+	add := func(fam, s, meta string) { jobs = append(jobs, iso.Job{Input: []byte(s), Family: fam, Meta: meta}) }
+	// systematic: duplicate variables of every type under every size declaration
+	for _, t := range itemTypes {
+		for _, sz := range sizeDecls {
+			add("duplicate-variable", fmt.Sprintf("S1F1 W\n<L\n  <%s%s dup>\n  <%s%s dup>\n>\n.", t, sz, t, sz), "")
+			add("duplicate-variable", fmt.Sprintf("S1F1 W <L <%s %s dup dup>> .", t, sz), "")
+			add("sized-items", fmt.Sprintf("S1F1 W <%s%s> .", t, sz), "")
+			add("sized-items", fmt.Sprintf("S1F1 W <%s %s 1 x \"s\" T> .", t, sz), "")
+		}
+	}
+	// message names / header positions made of each exotic space
+	for _, sp := range exoticSpaces {
+		for _, tmpl := range []string{"S1F1 %s .", "S1F1 H->E %s .", "S1F1 W H->E %s\n<L>\n.", "S1F1 W %s <L> .", "%sS1F1 .", "S1F1%s.", "S1F1 W <L%s> .", "S1F1 W <A %s> .", "S1F1 W <A \"%s\"> .", "S1F1 //%s\n.", "S1F1 n%sm .", "S1F1 [W] %s%s ."} {
+			add("exotic-space", strings.ReplaceAll(tmpl, "%s", sp), "")
+		}
+	}
+	// every hostile fragment in every structural position
+	for _, f := range hostileFragments {
+		for _, tmpl := range []string{"%s", "S1F1 %s", "S1F1 W %s .", "S1F1 W H->E name %s .", "S1F1 W <%s> .", "S1F1 W <L %s> .", "S1F1 W <A %s> .", "S1F1 W <U1 %s> .", "S1F1 W <U1%s 1> .", "S1F1 W <L <B 1> %s <B 2>> .", "S1F1 W <L <B 1>> %s", "S1F1 W <L> . %s S2F2 ."} {
+			add("hostile-fragment", strings.Replace(tmpl, "%s", f, 1), "")
+		}
+	}
+	// nesting
+	for _, d := range []int{10, 100, 1000, 3000} {
+		add("nesting", c06Recipe(fmt.Sprintf("nest-closed %d", d)), "")
+	}
+	for _, d := range []int{10, 1000, c.pick(20000, 100000)} {
+		add("nesting", c06Recipe(fmt.Sprintf("nest-unclosed %d", d)), "")
+	}
+	n := c.pick(30000, 900000)
+	maxLen := c.pick(64<<10, 1<<20)
+	for i := 0; i < n; i++ {
+		switch i % 6 {
+		case 0, 1:
+			add("token-soup", soup(r, 25), "")
+		case 2:
+			t, meta := validText(r, true, 1+r.Intn(4))
+			add("valid-sequence", t, meta)
+		case 3, 4:
+			t, _ := validText(r, false, 1+r.Intn(2))
+			add("mutated-valid", mutate(r, t), "")
+		case 5:
+			add("random-bytes", string(r.Bytes(r.Intn(200))), "")
+		}
+	}
+	// a few large inputs
+	for i := 0; i < c.pick(6, 40); i++ {
+		var sb strings.Builder
+		for sb.Len() < maxLen/c.pick(4, 1) {
+			if r.Bool() {
+				t, _ := validText(r, false, 2)
+				sb.WriteString(t)
+			} else {
+				sb.WriteString(soup(r, 30))
+			}
+			sb.WriteString("\n")
+		}
+		add("large", sb.String(), "")
+	}
+	return jobs
+}
+
+func c06CaseOf(j iso.Job) c06Case {
+	cs := c06Case{Family: j.Family, Len: len(j.Input), Meta: j.Meta}
+	if len(j.Input) <= 8192 {
+		cs.Quoted = fmt.Sprintf("%q", string(j.Input))
+	} else {
+		cs.Quoted = fmt.Sprintf("%q", string(j.Input[:2000])) + "…(truncated; regenerate with the run's seed)"
+	}
+	if strings.HasPrefix(j.Family, "deep-nesting-probe") {
+		cs.Recipe = j.Meta
+		cs.Meta = ""
+	}
+	return cs
+}
+
+var shapeMu sync.Mutex
+var shapeSet = map[string]int{}
+
+func c06RunPool(c *ctx, exe, work string, round int, jobs []iso.Job, nw int, vmemKB int) []int {
+	perm := c.rnd.Derive(uint64(100 + round)).Perm(len(jobs))
+	slots := make([][]iso.Job, nw)
+	idx := make([][]int, nw)
+	for i, p := range perm {
+		slots[i%nw] = append(slots[i%nw], jobs[p])
+		idx[i%nw] = append(idx[i%nw], p)
+	}
+	outs := make([]iso.Outcome, nw)
+	var wg sync.WaitGroup
+	for s := 0; s < nw; s++ {
+		if len(slots[s]) == 0 {
+			continue
+		}
+		wg.Add(1)
+		go func(s int) {
+			defer wg.Done()
+			outs[s] = iso.Run(iso.Options{Exe: exe, Kind: "sml", Dir: filepath.Join(work, fmt.Sprintf("r%dw%d", round, s)), VMemKB: vmemKB, Watchdog: 25 * time.Minute, MaxRestart: 30}, slots[s])
+		}(s)
+	}
+	wg.Wait()
+	var keep []int
+	for s, o := range outs {
+		c.Eval(int64(o.Processed))
+		for k, v := range o.Summary.Classes {
+			c.ClassN(k, v)
+		}
+		for k, v := range o.Summary.Maxima {
+			c.Max(k, v)
+		}
+		for _, sh := range o.Summary.Shapes {
+			shapeMu.Lock()
+			shapeSet[sh]++
+			shapeMu.Unlock()
+		}
+		for _, k := range o.Summary.Keep {
+			if k < len(idx[s]) {
+				keep = append(keep, idx[s][k])
+			}
+		}
+		for _, f := range o.Findings {
+			c.Violation(f.Sig, f.What, c06CaseOf(slots[s][f.Index]))
+		}
+		for _, a := range o.Aborts {
+			j := slots[s][a.Index]
+			c.Class("worker-abort/" + a.Kind)
+			if a.Kind == "watchdog" {
+				c.Inconclusive(fmt.Sprintf("watchdog expired on a %d-byte %s input", len(j.Input), j.Family))
+				continue
+			}
+			c.Violation("C06/abort/"+a.Kind+"/"+j.Family, fmt.Sprintf("worker process aborted (%s) while parsing a %d-byte input: %s", a.Kind, len(j.Input), firstLines(a.Stderr, 3)), c06CaseOf(j))
+		}
+		for _, m := range o.Incon {
+			c.Inconclusive(m)
+		}
+	}
+	return keep
+}
+
+func runC06(c *ctx) {
+	c.Rule = "inputs run in child worker processes (ulimit -v 2 GiB, watchdog). Oracle per call: no panic escapes sml.Parse; the worker does not abort (out of memory, stack overflow, deadlock); the logical step counters of hook H2 stay within linear budgets (lexer.next <= 64*len+1024, state functions <= 8*len+256, parser.peek <= 64*len+1024); errors and messages are never returned together; generated sequences of k valid tagged messages are returned complete and in order; every diagnostic reads 'Ln x, Col y: text' with a position that is a character position of the input or its end. Inputs: systematic (duplicate variables of every type under 12 size declarations incl. absurd ones, 27 exotic spaces in 12 positions, 150 hostile fragments in 12 structural positions, nesting closed to 3000 and unclosed to 20000/100000), token soups, valid sequences, byte/span mutations of valid texts, random bytes, large inputs; two further rounds mutate the inputs that produced a new diagnostic shape (coverage signal). non-trivial = the input reaches the item parser or produces a diagnostic; distinct by input hash"
+	c.Assume = []string{"hook H2 (pkg/parser/sml/verif_on.go, build tag verif) counts lexer.next, state-function and parser.peek calls of one Parse", "2 GiB address-space limit: a 1 MiB input legitimately needs < 300 MB"}
+
+	exe, _ := os.Executable()
+	work := filepath.Join(c.Root, "work", "C06")
+	os.RemoveAll(work)
+	os.MkdirAll(work, 0o755)
+	defer os.RemoveAll(work)
+	nw := runtime.NumCPU() - 2
+	if nw < 2 {
+		nw = 2
+	}
+
+	// the deep-nesting probe (finding K1) runs alongside in its own worker
+	var probeWG sync.WaitGroup
+	var probeOut iso.Outcome
+	depth, maxStack := 1100000, 0
+	if !c.thorough {
+		// quick tier: the same recursion against a quarter of the default stack limit
+		depth, maxStack = 300000, 250000000
+	}
+	probeRecipe := fmt.Sprintf("nest-unclosed %d", depth)
+	probe := []iso.Job{{Input: []byte(c06Recipe(probeRecipe)), Family: "deep-nesting-probe", Meta: probeRecipe}}
+	probeWG.Add(1)
+	go func() {
+		defer probeWG.Done()
+		o := iso.Options{Exe: exe, Kind: "sml", Dir: filepath.Join(work, "probe"), VMemKB: 6 << 20, Watchdog: 40 * time.Minute, MaxRestart: 1}
+		if maxStack > 0 {
+			o.ExtraArgs = []string{fmt.Sprintf("maxstack=%d", maxStack)}
+		}
+		probeOut = iso.Run(o, probe)
+	}()
+
+	r := c.rnd.Derive(1)
+	jobs := c06InitialJobs(c, r)
+	seen := map[uint64]bool{}
+	account := func(js []iso.Job) {
+		for _, j := range js {
+			s := string(j.Input)
+			nt := strings.Contains(s, "<") || !utf8.ValidString(s) || len(s) > 0
+			h := rng.Hash64(j.Input)
+			if !seen[h] {
+				seen[h] = true
+			}
+			c.Note(h, nt)
+		}
+		c.Eval(-int64(len(js)))
+	}
+	account(jobs)
+	keep := c06RunPool(c, exe, work, 0, jobs, nw, 2<<20)
+	// coverage-guided rounds: mutate the inputs that produced a new diagnostic shape
+	for round := 1; round <= 2; round++ {
+		var next []iso.Job
+		per := c.pick(20, 200)
+		for _, k := range keep {
+			src := string(jobs[k].Input)
+			if len(src) > 4096 {
+				continue
+			}
+			for q := 0; q < per; q++ {
+				next = append(next, iso.Job{Input: []byte(mutate(r, src)), Family: "coverage-guided"})
+			}
+		}
+		if max := c.pick(1500, 15000); len(keep) > max {
+			keep = keep[:max]
+		}
+		c.ClassN(fmt.Sprintf("seeds-kept/round%d", round), int64(len(keep)))
+		if len(next) == 0 {
+			break
+		}
+		account(next)
+		keep = c06RunPool(c, exe, work, round, next, nw, 2<<20)
+		jobs = next
+	}
+
+	probeWG.Wait()
+	c.Eval(int64(probeOut.Processed))
+	for _, f := range probeOut.Findings {
+		c.Violation(f.Sig+"/deep-nesting-probe", f.What, c06CaseOf(probe[0]))
+	}
+	for _, a := range probeOut.Aborts {
+		c.Class("worker-abort/" + a.Kind)
+		if a.Kind == "watchdog" {
+			c.Inconclusive("watchdog expired on the deep-nesting probe")
+			continue
+		}
+		c.Violation("C06/abort/"+a.Kind+"/deep-nesting-probe", fmt.Sprintf("worker process aborted (%s) while parsing %d nested '<L' (%d bytes, max stack %d): %s", a.Kind, depth, len(probe[0].Input), maxStack, firstLines(a.Stderr, 3)), c06CaseOf(probe[0]))
+	}
+	for _, m := range probeOut.Incon {
+		c.Inconclusive(m)
+	}
+	for i := 0; i < 8; i++ {
+		j := jobs[(i*7919)%len(jobs)]
+		if len(j.Input) < 300 {
+			c.Sample(map[string]interface{}{"family": j.Family, "input": fmt.Sprintf("%q", string(j.Input))})
+		}
+	}
+	c.Sample(map[string]interface{}{"family": "deep-nesting-probe", "recipe": probeRecipe})
+	var shapeList []string
+	for sh := range shapeSet {
+		shapeList = append(shapeList, sh)
+	}
+	sort.Strings(shapeList)
+	c.Extra["distinct_diagnostic_shapes"] = len(shapeList)
+	if len(shapeList) > 120 {
+		shapeList = shapeList[:120]
+	}
+	c.Extra["diagnostic_shapes"] = shapeList
+	c.Required = []string{"family/token-soup", "family/valid-sequence", "family/mutated-valid", "family/random-bytes", "family/duplicate-variable", "family/exotic-space", "family/hostile-fragment", "family/nesting", "family/coverage-guided", "hook-reached", "accepted", "rejected", "order-checked"}
+}
+
+func replayC06(c *ctx, raw json.RawMessage) {
+	var cs c06Case
+	if json.Unmarshal(raw, &cs) != nil {
+		return
+	}
+	var in string
+	if cs.Recipe != "" {
+		in = c06Recipe(cs.Recipe)
+	} else {
+		fmt.Sscanf(cs.Quoted, "%q", &in)
+	}
+	exe, _ := os.Executable()
+	work, _ := os.MkdirTemp("", "c06replay")
+	defer os.RemoveAll(work)
+	jobs := []iso.Job{{Input: []byte(in), Family: cs.Family, Meta: cs.Meta}}
+	o := iso.Run(iso.Options{Exe: exe, Kind: "sml", Dir: work, VMemKB: 6 << 20, Watchdog: 40 * time.Minute, MaxRestart: 1}, jobs)
+	for _, f := range o.Findings {
+		c.Violation(f.Sig, f.What, cs)
+	}
+	for _, a := range o.Aborts {
+		c.Violation("C06/abort/"+a.Kind+"/"+cs.Family, "worker aborted: "+firstLines(a.Stderr, 3), cs)
+	}
+}
